@@ -74,11 +74,10 @@ def judge (j : Json) : R Verdict := do
     if prog.txs.length != lower.length then corr := corr ++ ["lowering:tx-count"]
     else
       for (tx, (_, r, _)) in prog.txs.zip lower do
-        if !tx.adhoc.isEmpty then tags := tags ++ ["directive-not-modelled"]
-        else
-          let m := match lowerOf prog tx with | .ok _ => "ok" | .err e => "err:" ++ e | .panic e => "panic:" ++ e
-          if classOf m != classOf r then corr := corr ++ ["lowering-class:model=" ++ m ++ ":impl=" ++ ((r.splitOn "|").head!)]
-          else tags := tags ++ ["lowering-model-agrees:" ++ classOf m]
+        if !tx.adhoc.isEmpty then tags := tags ++ ["with-directive"]
+        let m := match lowerOf prog tx with | .ok _ => "ok" | .err e => "err:" ++ e | .panic e => "panic:" ++ e
+        if classOf m != classOf r then corr := corr ++ ["lowering-class:model=" ++ m ++ ":impl=" ++ ((r.splitOn "|").head!)]
+        else tags := tags ++ ["lowering-model-agrees:" ++ classOf m]
   return { i, corr, spec, nt := true, key, tags }
 where
   hasTimeout (obs : Json) : Bool := !isNull (fieldD obs "timeout")
